@@ -143,18 +143,17 @@ Proof. exact change_axes_fits_proof. Qed.
 Print Assumptions change_axes_fits.
 
 (* ---------------------------------------------------------------- DOK <-> COO *)
-(* DOK.from_coo then asformat("coo") (COO.from_iter on the dict) returns the same COO — except for
-   a 0-d array holding an element, which from_iter rejects (see conversion_chain_den_refuted) *)
+(* DOK.from_coo then asformat("coo") (COO.from_iter on the dict) returns the same COO, 0-d included *)
 Theorem dok_roundtrip :
   forall (V : Type) (veqb : V -> V -> bool) (add : V -> V -> V) (c : coo V),
-    canonical V c -> (c_shape c <> [] \/ c_coords c = []) ->
+    canonical V c ->
     from_iter_pairs veqb add (c_shape c) (dok_items_of_coo c) (c_fill c) = Ok c
     /\ forall ix, den (dok_as_coo (c_shape c) (dok_items_of_coo c) (c_fill c)) ix = den c ix.
 Proof. exact dok_roundtrip_proof. Qed.
 Print Assumptions dok_roundtrip.
 
 Example dok_roundtrip_nonvacuous :
-  c_shape ex_c <> [] /\ from_iter_pairs Z.eqb Z.add (c_shape ex_c) (dok_items_of_coo ex_c) (c_fill ex_c) = Ok ex_c.
+  from_iter_pairs Z.eqb Z.add (c_shape ex_c) (dok_items_of_coo ex_c) (c_fill ex_c) = Ok ex_c.
 Proof. exact ex_dok. Qed.
 
 (* ---------------------------------------------------------------- uniqueness of the canonical form *)
@@ -170,37 +169,29 @@ Proof. exact COOP.canonical_unique. Qed.
 Print Assumptions canonical_unique.
 
 (* ---------------------------------------------------------------- chains (histories) *)
-(* Full statement — for EVERY finite history of valid conversions starting from a canonical COO:
-     forall c0 hops, canonical c0 -> shape_ok (c_shape c0) -> forallb (hop_okb (c_shape c0)) hops = true ->
-       exists r, run_chain veqb add (RCoo c0) hops = Ok r /\ wf_r r = true /\ shape_r r = c_shape c0
-                 /\ fill_r r = c_fill c0 /\ forall ix, in_range (c_shape c0) ix -> den_r r ix = den c0 ix.
-   It is FALSE of the code as it stands (conversion_chain_den_refuted: a 0-d DOK holding an element
-   cannot be converted to COO); the proved part excludes exactly 0-d histories that go through DOK
-   (domain clause dok0d_clause = finding `zero_dim_from_iter`). *)
-Theorem conversion_chain_den_partial :
+(* for EVERY finite history of valid conversions starting from a canonical COO (any ndim, 0-d included):
+   the run succeeds, the result is in canonical form, and shape, fill value and every element are those
+   of the starting array *)
+Theorem conversion_chain_den :
   forall (V : Type) (veqb : V -> V -> bool) (add : V -> V -> V),
     (forall a b, veqb a b = true <-> a = b) ->
     forall (c0 : coo V) (hops : list fmt),
     canonical V c0 -> shape_ok (c_shape c0) ->
     forallb (hop_okb (c_shape c0)) hops = true ->
-    dok0d_clause (c_shape c0) hops = true ->
     exists r, run_chain veqb add (RCoo c0) hops = Ok r
               /\ wf_r r = true /\ shape_r r = c_shape c0 /\ fill_r r = c_fill c0
               /\ forall ix, in_range (c_shape c0) ix -> den_r r ix = den c0 ix.
-Proof. exact conversion_chain_den_partial_proof. Qed.
-Print Assumptions conversion_chain_den_partial.
-
-Theorem conversion_chain_den_refuted :
-  exists (c0 : coo Z) (hops : list fmt),
-    canonical Z c0 /\ shape_ok (c_shape c0) /\ forallb (hop_okb (c_shape c0)) hops = true /\
-    run_chain Z.eqb Z.add (RCoo c0) hops = Raise ValueError.
-Proof. exact conversion_chain_den_refuted_proof. Qed.
-Print Assumptions conversion_chain_den_refuted.
+Proof. exact conversion_chain_den_proof. Qed.
+Print Assumptions conversion_chain_den.
 
 Example conversion_chain_nonvacuous :
-  forallb (hop_okb (c_shape ex_c)) ex_hops = true /\ dok0d_clause (c_shape ex_c) ex_hops = true /\
+  forallb (hop_okb (c_shape ex_c)) ex_hops = true /\
   run_chain Z.eqb Z.add (RCoo ex_c) ex_hops = Ok (RCoo ex_c).
 Proof. exact ex_chain. Qed.
+
+Example conversion_chain_0d :
+  canonical Z ex_c0 /\ run_chain Z.eqb Z.add (RCoo ex_c0) [FDok; FCoo; FGcxs None; FDok; FDense; FCoo] = Ok (RCoo ex_c0).
+Proof. exact ex_chain_0d. Qed.
 
 (* representation independence: whatever representations a pruned canonical array has been held in,
    converting back to COO yields the identical record — so the value of any operation computed from
@@ -211,7 +202,6 @@ Theorem representation_independence :
     forall (c0 : coo V) (hops : list fmt),
     canonical V c0 -> prunedb veqb c0 = true -> shape_ok (c_shape c0) ->
     forallb (hop_okb (c_shape c0)) hops = true ->
-    dok0d_clause (c_shape c0) hops = true ->
     run_chain veqb add (RCoo c0) (hops ++ [FCoo]) = Ok (RCoo c0).
 Proof. exact representation_independence_proof. Qed.
 Print Assumptions representation_independence.
